@@ -1629,6 +1629,15 @@ pub fn e2_crossblock(ctx: &Ctx, name: &str, st: &mut Local, f: Sink) {
             ));
         }
     }
+    // one block with more than 65535 occurrences of the same symbol (16-bit frequency counters)
+    {
+        let many: Vec<Tok> = std::iter::repeat(Tok::Lit(b'a')).take(70_000).chain(std::iter::once(Tok::Lit(b'b'))).collect();
+        cases.push(("dynamic block with 70000 equal literals".into(), vec![Block::Dyn { hdr: default_header(&many), toks: many.clone() }]));
+        cases.push(("fixed block with 70000 equal literals".into(), vec![Block::Fixed { toks: many }]));
+        let mut refs: Vec<Tok> = vec![Tok::Lit(b'a')];
+        refs.extend(std::iter::repeat(r(3, 1)).take(66_000));
+        cases.push(("dynamic block with 66000 equal references".into(), vec![Block::Dyn { hdr: default_header(&refs), toks: refs }]));
+    }
     let mut idx = 0u64;
     for (d, blocks) in cases {
         let i = idx;
@@ -1648,7 +1657,7 @@ pub fn e2_crossblock(ctx: &Ctx, name: &str, st: &mut Local, f: Sink) {
         deliver(ctx, name, st, i, case, f);
     }
     let e = st.eng(name);
-    e.bound = "8 multi-block streams: a stored block (text / noise) followed by a fixed or dynamic block whose references reach into the stored bytes, with and without a leading huffman block".into();
+    e.bound = "3 single-block streams with more than 65535 occurrences of one symbol; 8 multi-block streams: a stored block (text / noise) followed by a fixed or dynamic block whose references reach into the stored bytes, with and without a leading huffman block".into();
     e.exhaustive = true;
 }
 
